@@ -34,6 +34,7 @@ PROP = {
         ("TestVFC09Concurrent", (120, 500)),
         ("TestVFC09ResetVsFlush", (400, 3000)),
         ("TestVFC09ResetAcrossHourStep", (300, 2000)),
+        ("TestVFC09CloseVsFlush", (100, 150)),
     ],
     "plain": ["TestVFC09Scenarios"],
     "shards": (4, 16),
